@@ -801,6 +801,33 @@ pub fn c02(tier: Tier) -> Vec<Case> {
             }
         }
     }
+    // inputs above 1 MiB (and 2 MiB): a memoized rule is asked at a small offset and again 2^20 (+-1, 2^21) bytes later -
+    // the tree must hold the match made at the later offset (table keys are offsets, however the table is organised)
+    {
+        let g = Grammar {
+            rules: vec![
+                Rule::normal(
+                    "Root",
+                    vec![Directive::Export, Directive::NoSkipWs],
+                    seq(vec![field("first", "Item"), star(lit(".")), field("last", "Item"), star(choice(vec![lit("."), field("tail", "Word")])), Expr::Eoi]),
+                ),
+                Rule::normal("Item", vec![Directive::Memoize, Directive::NoSkipWs], field("name", "Word")),
+                Rule::normal("Word", vec![Directive::String, Directive::NoSkipWs], plus(range('a', 'z'))),
+            ],
+        };
+        let mut inputs: Vec<String> = Vec::new();
+        let mib = 1usize << 20;
+        let at: Vec<usize> = if tier == Tier::Quick { vec![mib] } else { vec![4096, 65536, mib - 1, mib, mib + 1, 2 * mib, 3 * mib + 4096] };
+        for d in &at {
+            // `abc` at offset 0, `xyz` exactly d bytes later
+            let mut s = String::with_capacity(d + 16);
+            s.push_str("abc");
+            s.push_str(&".".repeat(d - 3));
+            s.push_str("xyz.end");
+            inputs.push(s);
+        }
+        b.add("memo-far-offsets", g, InputSpec::List(inputs));
+    }
     b.cases
 }
 
